@@ -121,8 +121,21 @@ void harness(void)
 
     if (opc == 0x07) {
         CHECK(none, "LL_UNKNOWN_RSP (any length) is never answered");
+        /* an LL_UNKNOWN_RSP that names a PDU type the peripheral never sends as a request is no answer to a pending peripheral
+           initiated procedure: the 40 s procedure response timer keeps running (request types a peripheral may have outstanding:
+           0x08/0x0E feature, 0x0C version, 0x0F connection parameter, 0x12 ping, 0x14 length, 0x16 phy) */
+        if (len == 2) {
+            const unsigned t = pdu[3];
+            if (t != 0x08 && t != 0x0E && t != 0x0C && t != 0x0F && t != 0x12 && t != 0x14 && t != 0x16)
+                CHECK(post[VFD_PROC_TIMEOUT] == st[VFD_PROC_TIMEOUT], "an LL_UNKNOWN_RSP for a PDU type that is no request of the peripheral does not stop the procedure response timer");
+        }
     } else if (kind == K_REJ) {
         if (well) CHECK(none, "LL_REJECT_IND / LL_REJECT_EXT_IND is never answered");
+        if (well && opc == 0x11) {
+            const unsigned t = pdu[3];
+            if (t != 0x08 && t != 0x0E && t != 0x0C && t != 0x0F && t != 0x12 && t != 0x14 && t != 0x16)
+                CHECK(post[VFD_PROC_TIMEOUT] == st[VFD_PROC_TIMEOUT], "an LL_REJECT_EXT_IND for a PDU type that is no request of the peripheral does not stop the procedure response timer");
+        }
         else      CHECK(none || unknown_rsp, "a malformed reject is ignored or answered with LL_UNKNOWN_RSP naming it");
     } else if (kind == K_RSP && !(sup_op && well)) {
         CHECK(none || unknown_rsp, "a response PDU that is not expected is ignored or answered with LL_UNKNOWN_RSP naming it, nothing else");
